@@ -27,6 +27,8 @@ specs = {
    body='''    import ecframe
     ecframe.run(ctx, model_ok, deep)
     F.run_suites(ctx, model_ok, deep, [
+        ("programs", S.programs_suite, S.falsify_programs,
+         "110 (quick) / 1500 (thorough) random programs of 55-70 API calls over 3 checkers, 3 builders, every pool key (with/without alg attribute, private/public), callbacks, clocks and both providers; every answer compared with the model; 60% of the verifies and generates are asked of a fresh twin configured by the same calls first", False),
         ("verify-sig-openssl", lambda w, p, t, r: S.verify_sig(w, p, t, r, "openssl"), S.falsify_accept,
          "per key x admissible alg: valid token + header/payload char edits, segment swap, signature truncation/extension, every single-bit flip of the decoded signature, alt alphabet/padding, re-targeting to every other key/alg and to HMAC under public/empty key; distinct = distinct (answer, mutation class, key, alg)", False),
         ("verify-sig-gnutls", lambda w, p, t, r: S.verify_sig(w, p, t, r, "gnutls"), S.falsify_accept,
@@ -41,6 +43,8 @@ specs = {
    level="Lean theorems for every Env/callback/token: with a key in force acceptance needs a non-empty third segment and a header alg other than none; without a key only the exact four bytes none with an empty third segment and no configured alg. Builder: with a key in force after the callback generate fails or signs with the pinned algorithm, without one it emits only alg-none tokens ending in an empty segment (all callbacks). Tied to the code by the exhaustive matrix (token shapes with absent/garbage/valid signatures, alg none/None/NONE/other/missing) on setkey and callback routes, and by exhaustive builder key/alg routes.",
    assume=[],
    body='''    F.run_suites(ctx, model_ok, deep, [
+        ("programs", S.programs_suite, S.falsify_programs,
+         "110 (quick) / 1500 (thorough) random programs of 55-70 API calls over 3 checkers, 3 builders, every pool key (with/without alg attribute, private/public), callbacks, clocks and both providers; every answer compared with the model; 60% of the verifies and generates are asked of a fresh twin configured by the same calls first", False),
         ("alg-matrix", None, S.falsify_accept,
          "all cells: configured alg x key x route; 23 header variants x signature classes incl. empty third segment", True),
         ("token-shapes", S.token_shapes, S.falsify_accept, "2, 3 and 4+ segment shapes with empty/non-empty parts under keyless and keyed checkers", True),
@@ -52,6 +56,8 @@ specs = {
    level="Lean theorems: exp/nbf thresholds, type rule, generated defaults and disable bound, string equality, enforcement for every accepted token, and refinement of every configuration history to a last-writer-wins policy (induction over op lists). Tied to the code by threshold/leeway/clock grids, 64-bit extremes, every JSON type per claim, string pairs, and exhaustive configuration sequences judged against the property's own semantics.",
    assume=[],
    body='''    F.run_suites(ctx, model_ok, deep, [
+        ("programs", S.programs_suite, S.falsify_programs,
+         "110 (quick) / 1500 (thorough) random programs of 55-70 API calls over 3 checkers, 3 builders, every pool key (with/without alg attribute, private/public), callbacks, clocks and both providers; every answer compared with the model; 60% of the verifies and generates are asked of a fresh twin configured by the same calls first", False),
         ("claims", S.claims_suite, S.falsify_accept,
          "threshold +-2 x leeway {-1,0,1,59,2^31,2^40} x clock {0,1,1e9,2^31-1,2^31,2^40}; int64 extremes; 11 JSON types per claim; string pairs; all configuration sequences up to length 2 (quick) / 3 (thorough) over an 11-call alphabet + random longer ones, each followed by 10 probe tokens; signed and unsigned; expected verdict computed from the property statement", False),
     ])'''),
@@ -89,6 +95,8 @@ specs = {
          "all sequences of length 1-2 and 500 of length 3 (quick) / all to length 4 (thorough) over {valid, badsig, expired, nodot, onedot, badhdr, noalg, badpay, unsigned, NULL, empty, error_clear}, plus random sequences of length 5-60; reference = same token on a fresh checker", False),
         ("key-lifecycle", S.key_lifecycle_suite, S.falsify_accept,
          "per key type and provider: one keyring slot loaded, used, freed and re-loaded 6 (quick) / 12 (thorough) times with two keys of the same type and size in turn; after every re-load the retired key's token must fail and the current key's must verify", False),
+        ("programs", S.programs_suite, S.falsify_programs,
+         "110 (quick) / 1500 (thorough) random programs of 55-70 API calls over 3 checkers, 3 builders, every pool key (with/without alg attribute, private/public), callbacks, clocks and both providers; every answer compared with the model; 60% of the verifies and generates are asked of a fresh twin configured by the same calls first", False),
         ("builder-reuse", S.builder_reuse_suite, S.falsify_builder_reuse,
          "all sequences to length 3 (quick) / 4 (thorough) over {ok, callback fails, weak key, callback selects inadmissible key/alg, unsigned, error_clear} + random longer ones; each generate compared with a fresh identically configured builder", False),
     ])'''),
@@ -97,6 +105,8 @@ specs = {
    level="Lean theorems: verify returns non-zero iff the flag is set afterwards, flag => message, success => clean, from every prior state; setkey refusal flags with message; generate returns NULL iff the flag is set with a message. Tied to the code by every failure cause x prior error state (reuse sequences) and by the C14 contract checked on every verify operation of the matrix.",
    assume=[],
    body='''    F.run_suites(ctx, model_ok, deep, [
+        ("programs", S.programs_suite, S.falsify_programs,
+         "110 (quick) / 1500 (thorough) random programs of 55-70 API calls over 3 checkers, 3 builders, every pool key (with/without alg attribute, private/public), callbacks, clocks and both providers; every answer compared with the model; 60% of the verifies and generates are asked of a fresh twin configured by the same calls first", False),
         ("errors-by-history", S.reuse_suite, S.falsify_reuse,
          "every failure cause of the token alphabet crossed with prior states reached by all short histories (fresh, flag set, set then cleared); contract rc!=0 <=> flag, flag => message, success => clean", False),
         ("alg-matrix-sample", 200 if not (ctx.tier == "thorough" or deep) else None, S.falsify_accept,
@@ -116,6 +126,8 @@ specs = {
    level="Lean theorems for every callback function: returning 0 with key/alg untouched leaves the whole outcome unchanged whatever it did to the token object; non-zero return always fails; selected (alg,key) passes the setkey table. Tied to the code by scripted callback programs (set/replace/delete/delete-all of claims and headers, whole-object JSON merge, reads) x claim-check configurations x passing/failing tokens, with vs without the callback on the real library.",
    assume=[],
    body='''    F.run_suites(ctx, model_ok, deep, [
+        ("programs", S.programs_suite, S.falsify_programs,
+         "110 (quick) / 1500 (thorough) random programs of 55-70 API calls over 3 checkers, 3 builders, every pool key (with/without alg attribute, private/public), callbacks, clocks and both providers; every answer compared with the model; 60% of the verifies and generates are asked of a fresh twin configured by the same calls first", False),
         ("callback-admission", S.callback_admission_suite, S.falsify_accept,
          "per key x alg attribute (absent, two admissible) x algorithm left by the callback (none, four of the family, one foreign) x style (writes alg only and keeps the key setkey installed / re-installs the same item / reads the configuration first) x header alg in {attribute, callback alg, admissible}: validly signed token accepted exactly when the documented setkey table admits (alg, key) and the pinned algorithm is the header's", False),
         ("callbacks", S.callbacks_suite, S.falsify_callbacks,
